@@ -664,6 +664,39 @@ def judge_o_history(inp, obs, lr):
     return None
 
 
+def gen_o_surface(rng, n):
+    for i in range(n):
+        yield {"g": 2 + (i % 4)}
+
+
+def run_o_surface(inp):
+    g = inp["g"]
+    P = H.Polygon.regular_surface_polygon(g)
+    data = np.array(P.get_vertices().proj_data, dtype=float)
+    cnt = data.shape[0]
+    o = H.Point.get_origin(2)
+    radii = [_d(o, H.Point(data[i].copy())) for i in range(cnt)]
+    angles = []
+    for i in range(cnt):
+        t1 = H.Point(data[i].copy()).unit_tangent_towards(H.Point(data[(i - 1) % cnt].copy()))
+        t2 = H.Point(data[i].copy()).unit_tangent_towards(H.Point(data[(i + 1) % cnt].copy()))
+        angles.append(float(np.asarray(t1.angle(t2)).reshape(-1)[0]))
+    return {"cnt": cnt, "radii": radii, "angles": angles, "r": float(H.genus_g_surface_radius(g))}
+
+
+def judge_o_surface(inp, obs, lr):
+    g = inp["g"]
+    if "exc" in obs:
+        return {"expected": "regular 4g-gon", "observed": obs, "tags": {"exc": obs["exc"], "g": g}}
+    if obs["cnt"] != 4 * g:
+        return {"expected": f"{4 * g} vertices", "observed": obs["cnt"], "tags": {"g": g, "what": "count"}}
+    if not np.abs(np.array(obs["radii"]) - obs["r"]).max() <= 1e-6:
+        return {"expected": {"radius genus_g_surface_radius(g)": obs["r"]}, "observed": obs["radii"], "tags": {"g": g, "what": "radii"}}
+    if not (np.abs(np.array(obs["angles"]) - math.pi / (2 * g)).max() <= 1e-6 and abs(sum(obs["angles"]) - 2 * math.pi) <= 1e-5):
+        return {"expected": "interior angles pi/(2g), summing to 2 pi", "observed": obs["angles"], "tags": {"g": g, "what": "angles"}}
+    return None
+
+
 CLAUSES = [
     Clause("origin_corr", "corr", gen_origin, run_origin, judge_origin, lean=lean_origin, site="hyperbolic.Point.origin_to",
            budget={"quick": 120, "thorough": 3000},
@@ -688,6 +721,8 @@ CLAUSES = [
            budget={"quick": 150, "thorough": 5000}, what="base tangent -> positive multiple; isometry_to carries basepoint and direction"),
     Clause("along_oracle", "oracle", gen_o_along, run_o_along, judge_o_along, site="hyperbolic.TangentVector.point_along",
            budget={"quick": 200, "thorough": 8000}, what="|t| along a unit tangent (both signs), on the geodesic, law of cosines, towards q reaches q"),
+    Clause("surface_polygon_oracle", "oracle", gen_o_surface, run_o_surface, judge_o_surface, site="hyperbolic.Polygon.regular_surface_polygon",
+           budget={"quick": 8, "thorough": 8}, what="regular_surface_polygon(g), g = 2..5: 4g vertices at radius genus_g_surface_radius(g), interior angles pi/(2g) summing to 2 pi"),
     Clause("history_oracle", "oracle", gen_o_history, run_o_history, judge_o_history, site="hyperbolic.TangentVector.origin_to",
            budget={"quick": 150, "thorough": 5000},
            what="histories of 6-10 steps on one tangent vector / point: queries (origin_to, point_along, isometry_to, angle with unequal lengths, normalized) "
